@@ -23,6 +23,7 @@
 import TypedpyModel.Lemmas.DeserErr
 import TypedpyModel.Lemmas.LiftEquiv
 import TypedpyModel.Lemmas.RoundTripX
+import TypedpyModel.Sem.Decimal
 namespace Typedpy.C06
 open Typedpy
 
@@ -424,6 +425,41 @@ theorem enumName_deser_exact (XO : XOracles) (opts : DeserOpts) (cls : String) (
     | true => simp only [if_true, bindE_ok, vEnumVal, hc, beq_self_eq_true, Bool.and_self]
     | false => simp
   | _ => simp only [dEnumName]; exact dValidated_same (vEnumVal cls ms mx) _
+
+/-- **one DecimalNumber, two models**: wherever the extension model (Sem/SerdeX.lean, used for C05/C06) does not
+    answer "not modelled" (a NaN / Infinity string, a (sign, digits, exponent) sequence), its constructor
+    `sxDecimal` is the constructor model of C01/C02 (`Typedpy.vDecimal`, Sem/Decimal.lean), with that model's string
+    parser read off this model's oracle: the two properties talk about the same DecimalNumber -/
+theorem decimal_models_agree (XO : XOracles) (o : NumOpts) (v : PyVal)
+    (h : ∀ e, sxDecimal XO o v = .error e → xOutside e = false) :
+    sxDecimal XO o v = Typedpy.vDecimal (fun s => (XO.decOfStr s).bind id) o v := by
+  cases v with
+  | str s =>
+    cases hd : XO.decOfStr s with
+    | none =>
+      have := h (.other "outside-model:decimal-str") (by simp [sxDecimal, xConvDecimal, hd])
+      simp [xOutside] at this
+    | some r =>
+      cases r with
+      | none => simp [sxDecimal, xConvDecimal, hd, Typedpy.vDecimal, toDecimal, decValue, decErr]
+      | some q =>
+        simp [sxDecimal, xConvDecimal, hd, Typedpy.vDecimal, toDecimal, decValue, vNumber, PyVal.asNum]
+  | list xs =>
+    have := h (.other "outside-model:decimal-seq") (by simp [sxDecimal, xConvDecimal])
+    simp [xOutside] at this
+  | tuple xs =>
+    have := h (.other "outside-model:decimal-seq") (by simp [sxDecimal, xConvDecimal])
+    simp [xOutside] at this
+  | bool b =>
+    simp [sxDecimal, xConvDecimal, Typedpy.vDecimal, toDecimal, decValue, vNumber, PyVal.asNum]
+  | int i =>
+    simp [sxDecimal, xConvDecimal, Typedpy.vDecimal, toDecimal, decValue, vNumber, PyVal.asNum]
+  | float q =>
+    simp [sxDecimal, xConvDecimal, Typedpy.vDecimal, toDecimal, decValue, vNumber, PyVal.asNum]
+  | dec q =>
+    simp [sxDecimal, xConvDecimal, Typedpy.vDecimal, toDecimal, decValue, vNumber, PyVal.asNum]
+  | _ => simp [sxDecimal, xConvDecimal, Typedpy.vDecimal, toDecimal, decValue, decErr, PyVal.asNum]
+
 
 def exXO : XOracles :=
   { base := exO, toFloat := fun q => q,
